@@ -276,13 +276,24 @@ class CallMixin:
             del self.st.ghost[k]
         self.st.ghost.update(snap)
 
-    def pc_status(self):
-        """'sat' / 'unsat' / 'unknown' for the current path condition (short budget)."""
+    def pc_status(self, confirm=False):
+        """'sat' / 'unsat' / 'unknown' for the current path condition (short budget).
+        confirm=True: 'unsat' only if a second solver instance with another random seed says so too (z3 5.1.0 was seen
+        to answer 'unsat' once, and 'unknown' on every repetition, for a SATISFIABLE path condition with quantifiers over
+        sequences and arrays: notes/z3_spurious_unsat.smt2)."""
         sv = z3.Solver()
         sv.set('timeout', 1500)
         for h in self.st.pc:
             sv.add(h)
         r = sv.check()
+        if r == z3.unsat and confirm:
+            sv2 = z3.Solver()
+            sv2.set('timeout', 3000)
+            sv2.set('random_seed', 17)
+            for h in self.st.pc:
+                sv2.add(h)
+            if sv2.check() != z3.unsat:
+                return 'unknown'
         return 'sat' if r == z3.sat else ('unsat' if r == z3.unsat else 'unknown')
 
     def call_site_name(self, fi, node):
@@ -505,7 +516,7 @@ class CallMixin:
                             raise EngineLimit(f'the assumed postconditions of callee contract {c.key} are contradictory '
                                               f'at this call (they would silently end the path)')
                         raise
-                    if before == 'sat' and self.pc_status() == 'unsat':
+                    if before == 'sat' and self.pc_status(confirm=True) == 'unsat':
                         raise EngineLimit(f'the assumed postconditions of callee contract {c.key} are contradictory '
                                           f'at this call (everything after it would be vacuous)')
                 return result
